@@ -23,7 +23,8 @@ model checking:
                inside armor: ArmorInvariant (armor shapes x comments x leading/trailing lines) and
                GpgMvAgrees (Dsc/Changes pre-pass).  Thorough adds "wide" (all 3 x 3 documents over the
                two value shapes "v" / "<empty> + 1 line") and "deep" (<= 5 fields in all: RoundTrip,
-               ParseOneOk, CommentInvariant).  The full 3 x 3 x 6-shape space of DESIGN.md has 1.7e7
+               ParseOneOk, a comment before every line) and "big" (size stress: uniform documents of up
+               to 1000 paragraphs / 100 fields / 120 continuation lines: BigInvariant).  The full 3 x 3 x 6-shape space of DESIGN.md has 1.7e7
                documents and is not enumerated: the bound is on the total number of fields instead.
            Spec-level negative controls (each must make TLC report the named invariant):
                TrimFirst=FALSE -> RoundTrip, CommentEndsValue=TRUE -> CommentInvariant,
@@ -1175,7 +1176,7 @@ def run(ctx):
         return s + "".join("INVARIANT %s\n" % i for i in inv)
 
     hdrs = "{%s}" % ", ".join(map(str, armor_hdrs))
-    inv_deep = ["RoundTrip", "ParseOneOk", "CommentInvariant"]
+    inv_deep = ["RoundTrip", "ParseOneOk", "CommentAllInvariant"]
     light = [
         dict(name="lts", cfg="MC_Deb822Reader_lts.cfg", workers=2, tags={"EDGE"}),
     ]
@@ -1193,12 +1194,12 @@ def run(ctx):
         ]
     else:
         heavy = [
-            dict(name="bnd_deep", cfg=bnd_cfg(inv_deep, MaxTotal="5"), workers=workers, tags=set()),
-            big_job,
             dict(name="bnd_docs", cfg=bnd_cfg(inv_multi, MaxTotal=str(maxtotal), Emit="TRUE"), workers=workers, tags={"CASE"}),
+            dict(name="bnd_deep", cfg=bnd_cfg(inv_deep, MaxTotal="5"), workers=workers, tags=set()),
             dict(name="bnd_armor", cfg=bnd_cfg(inv_armor, MaxPara="1", MaxTotal=str(armor_fields), ArmorHdrs=hdrs),
                  workers=workers, tags=set()),
             dict(name="bnd_wide", cfg=bnd_cfg(inv_multi[:-1], MaxTotal="9", MaxCont="1", ShapeMode="1"), workers=workers, tags=set()),
+            big_job,
         ]
     controls = NEG_CONTROLS if not quick else [NEG_CONTROLS[ctx.seed % len(NEG_CONTROLS)], NEG_CONTROLS[(ctx.seed + 2) % len(NEG_CONTROLS)]]
     for const, val, inv in controls:
